@@ -793,6 +793,25 @@ func (e *Env) evalCall(n SCall) Val {
 			case "trimSuffix":
 				return Val{T: Term{fmt.Sprintf("(ite (str.suffixof %s %s) (str.substr %s 0 (- (str.len %s) (str.len %s))) %s)", b.T.S, a.T.S, a.T.S, a.T.S, b.T.S, a.T.S), "String"}, Typ: a.Typ}
 			}
+		case "errAs":
+			// errAs(err, T): the first value of type T in err's chain (what
+			// errors.As(err, &target) stores), or the zero value
+			v := e.eval(n.Args[0])
+			var T types.Type
+			switch a := n.Args[1].(type) {
+			case SIdent:
+				T = e.resolveType(a.Name)
+			case SSel:
+				if id, ok := a.X.(SIdent); ok {
+					T = e.resolveType(id.Name + "." + a.Name)
+				}
+			case SStr:
+				T = e.resolveType(a.V)
+			}
+			if T == nil {
+				return e.fail("errAs: unknown type %s", exprString(n.Args[1]))
+			}
+			return x.errAsTerm(e.st, v, T)
 		case "header":
 			if lit, ok := n.Args[0].(SStr); ok {
 				return Val{T: e.respHeader(lit.V), Typ: types.Typ[types.String]}
@@ -1001,6 +1020,9 @@ func (e *Env) evalCall(n SCall) Val {
 			if fo, ok := obj.(*types.Func); ok {
 				sig := fo.Type().(*types.Signature)
 				if sig.Results().Len() == 1 {
+					if x.cs.IfacePure[sel.Name] {
+						return x.uninterp(e.st, "im_"+sel.Name, args, sig.Results().At(0).Type())
+					}
 					return x.uninterp(e.st, "im_"+sanitize(shortTypeName(recv.Typ))+"_"+sel.Name, args, sig.Results().At(0).Type())
 				}
 			}
